@@ -45,6 +45,25 @@ def _scrub(v, depth=0):
 _REUSED = {}
 
 
+def _call_deep(f, args, depth=800, limit=1000):
+    """call f(*args) from `depth` frames below the worker's loop with the interpreter's DEFAULT recursion limit (a
+    caller that is itself recursive - a tree walk over accounts or blocks): code that needs a stack proportional to
+    its input now fails with RecursionError where the pinned, iterative code has room to spare"""
+    import sys
+    old = sys.getrecursionlimit()
+    base = len(__import__("inspect").stack(0))
+
+    def down(n):
+        if n <= 0:
+            return f(*args)
+        return down(n - 1)
+    sys.setrecursionlimit(limit + base)
+    try:
+        return down(depth)
+    finally:
+        sys.setrecursionlimit(old)
+
+
 def main():
     prop_id = sys.argv[1]
     proto_out = os.fdopen(os.dup(1), "w", buffering=1)
@@ -74,6 +93,10 @@ def main():
                 signal.setitimer(signal.ITIMER_REAL, max(0.05, int(tmo) / 1000.0))
                 try:
                     orig_args = None
+                    deep = False
+                    if op.endswith("@deep"):           # the caller is already ~800 frames deep (default limit 1000)
+                        op = op[:-len("@deep")]
+                        deep = True
                     if op.endswith("@bytearray"):      # same call with every bytes argument given as a bytearray
                         op = op[:-len("@bytearray")]
                         orig_args = args
@@ -101,7 +124,10 @@ def main():
                             else:
                                 new.append(a)
                         args = new
-                    v = prop.IMPL[op](*args)
+                    if deep:
+                        v = _call_deep(prop.IMPL[op], args)
+                    else:
+                        v = prop.IMPL[op](*args)
                     signal.setitimer(signal.ITIMER_REAL, 0)
                     if orig_args is not None and any(isinstance(o, bytes) and bytes(a) != o for o, a in zip(orig_args, args)):
                         raise RuntimeError("the call modified its caller's argument buffer in place")
